@@ -1064,6 +1064,11 @@ class Structure(UniqueMixin, metaclass=StructMeta):
             raise TypeError(f"{self.__class__.__name__}: {ex}")
         if "kwargs" in bound.arguments:
             for name, val in bound.arguments["kwargs"].items():
+                if name in _internal_props or name == "_skip_validation":
+                    # the instance's own bookkeeping (these flags switch validation off)
+                    raise TypeError(
+                        f"{self.__class__.__name__}: got an unexpected keyword argument '{name}'"
+                    )
                 setattr(self, name, val)
             del bound.arguments["kwargs"]
 
